@@ -39,6 +39,12 @@ func boundaryLits() []lit {
 			add(-b + d)
 		}
 	}
+	// decimal literals with leading zeros stay decimal (no octal reading), also
+	// around the boundaries where the two readings fall on different sides
+	for _, v := range []int64{7, 8, 10, 127, 128, 177, 200, 32767, 32768, 77777, 2147483647, 2147483648, 17777777777} {
+		out = append(out, lit{text: "0" + strconv.FormatInt(v, 10), v: v})
+		out = append(out, lit{text: "-00" + strconv.FormatInt(v, 10), v: -v})
+	}
 	add(math.MaxInt64)
 	add(math.MaxInt64 - 1)
 	add(math.MinInt64)
